@@ -60,36 +60,38 @@ type Step struct {
 }
 
 type RpcCase struct {
-	ID       int      `json:"id"`
-	Proto    string   `json:"proto"` // http | twirp | grpc | grpcweb | grpcwebtext
-	Codec    string   `json:"codec"` // json | proto
-	Comp     string   `json:"comp"`  // "" | gzip
-	Shape    string   `json:"shape"` // unary | cstream | sstream | bidi
-	Opts     []string `json:"opts"`  // unaryInt | streamInt | stats
-	Sizes    []int    `json:"sizes"` // sizes of the client messages (payload filler bytes)
-	Script   []Step   `json:"script"`
-	ReqMD    MD       `json:"reqmd"`
-	MaxRecv  int      `json:"maxrecv"`
-	MaxSend  int      `json:"maxsend"`
-	Sched    []int    `json:"sched"` // read schedule of the request body
-	EofWith  bool     `json:"eofwith"`
-	Trunc    int      `json:"trunc"` // cut the request body after this many bytes (0 = whole)
-	Timeout  string   `json:"timeout"`
-	Accept   string   `json:"accept"`
-	Tag      string   `json:"tag"`
-	BinPad   bool     `json:"binpad"`
-	ReqWant  MD       `json:"reqwant"`  // what the specification expects the handler to see for ReqMD
-	Exact    bool     `json:"exact"`    // sizes are exact wire sizes in the case's codec
-	TruncK   int      `json:"trunck"`   // with Trunc > 0: number of complete client messages kept
-	Corrupt  bool     `json:"corrupt"`  // gRPC: the first frame claims to be compressed but holds garbage
-	Noise    bool     `json:"noise"`    // the client messages carry incompressible bytes (field by) instead of letters
-	WsNoBody bool     `json:"wsnobody"` // ws: the body-less binding /wn/...: no frame is sent, the single (empty) message is the URL
-	WsFrag   int      `json:"wsfrag"`   // ws: every message is sent as continuation frames of at most this many bytes (0 = one frame)
-	ReqCT    string   `json:"reqct"`    // http: Content-Type of a request WITHOUT a body (the one message is the empty message)
-	ExactRep bool     `json:"exactrep"` // send sizes are exact wire sizes of the replies in the case's codec
-	WsClose  bool     `json:"wsclose"`  // ws: the client sends a close frame (1000) after its messages; else it waits for the server's
-	H2       bool     `json:"h2"`       // gRPC-web / HTTP / Twirp request arrives over HTTP/2 (gRPC always does)
-	Boundary int      `json:"boundary"` // >0: the first message is 8+Boundary-1 small records and the receive limit is exactly 8 records
+	ID          int      `json:"id"`
+	Proto       string   `json:"proto"` // http | twirp | grpc | grpcweb | grpcwebtext
+	Codec       string   `json:"codec"` // json | proto
+	Comp        string   `json:"comp"`  // "" | gzip
+	Shape       string   `json:"shape"` // unary | cstream | sstream | bidi
+	Opts        []string `json:"opts"`  // unaryInt | streamInt | stats
+	Sizes       []int    `json:"sizes"` // sizes of the client messages (payload filler bytes)
+	Script      []Step   `json:"script"`
+	ReqMD       MD       `json:"reqmd"`
+	MaxRecv     int      `json:"maxrecv"`
+	MaxSend     int      `json:"maxsend"`
+	Sched       []int    `json:"sched"` // read schedule of the request body
+	EofWith     bool     `json:"eofwith"`
+	Trunc       int      `json:"trunc"` // cut the request body after this many bytes (0 = whole)
+	Timeout     string   `json:"timeout"`
+	Accept      string   `json:"accept"`
+	Tag         string   `json:"tag"`
+	BinPad      bool     `json:"binpad"`
+	ReqWant     MD       `json:"reqwant"`     // what the specification expects the handler to see for ReqMD
+	Exact       bool     `json:"exact"`       // sizes are exact wire sizes in the case's codec
+	TruncK      int      `json:"trunck"`      // with Trunc > 0: number of complete client messages kept
+	Corrupt     bool     `json:"corrupt"`     // gRPC: the first frame claims to be compressed but holds garbage
+	Noise       bool     `json:"noise"`       // the client messages carry incompressible bytes (field by) instead of letters
+	WsCloseAs   int      `json:"wscloseas"`   // ws + wsclose: how the client spells its close: 0 = 1000, 1001 = going away, -1 = a Close frame without a status code (what a browser's socket.close() sends)
+	PlainFrames bool     `json:"plainframes"` // gRPC family: Grpc-Encoding is announced but the frames are sent uncompressed (flag 0), as the protocol allows per message
+	WsNoBody    bool     `json:"wsnobody"`    // ws: the body-less binding /wn/...: no frame is sent, the single (empty) message is the URL
+	WsFrag      int      `json:"wsfrag"`      // ws: every message is sent as continuation frames of at most this many bytes (0 = one frame)
+	ReqCT       string   `json:"reqct"`       // http: Content-Type of a request WITHOUT a body (the one message is the empty message)
+	ExactRep    bool     `json:"exactrep"`    // send sizes are exact wire sizes of the replies in the case's codec
+	WsClose     bool     `json:"wsclose"`     // ws: the client sends a close frame (1000) after its messages; else it waits for the server's
+	H2          bool     `json:"h2"`          // gRPC-web / HTTP / Twirp request arrives over HTTP/2 (gRPC always does)
+	Boundary    int      `json:"boundary"`    // >0: the first message is 8+Boundary-1 small records and the receive limit is exactly 8 records
 }
 
 // ---- observation ----------------------------------------------------------------
@@ -748,7 +750,7 @@ func (e *rpcEnv) requestBody() []byte {
 	case "grpc", "grpcweb", "grpcwebtext":
 		for _, m := range e.sent {
 			p := marshalMsg(c.Codec, m)
-			if c.Comp == "gzip" {
+			if c.Comp == "gzip" && !c.PlainFrames {
 				frames = append(frames, grpcFrame(gz(p), true))
 			} else {
 				frames = append(frames, grpcFrame(p, false))
